@@ -25,6 +25,8 @@ MODULES = {
     "calls": "r = f(x)\ns = f(f(x))\nt = f(x) + g(f(x), y)\nu = [f(q) for q in f(x)]\nv = lambda x: f(x)\nw = data[n:]\nz = data[:n] + data[::n]\n",
 }
 MODULES["runs"] = "p = 1\nq = 1\nr = 1\ns = 1\nt = 2\nif p:\n    u = 1\n    v = 1\n    w = 1\nelse:\n    t = 2\n    t = 2\n"
+MODULES["semicolons"] = "a = 1; b = a\nc = f(a); d = c; e = 1\n"
+MODULES["oneline-if"] = "a = 1\nif a: g = 2; h = g\n"
 MODULES["comments"] = ("r = f(\n    x,  # first f( and x\n    # then y, or f(x, y) again\n    y)\nlst = [\n    a,  # one a\n    # b here, also [a, b]\n    b,\n]\n"
                        "v = g(a)  # g(a) and g(b)\n# g(b)\nw = g(b)\n")
 W = ["__W0__", "__W1__"]
@@ -202,7 +204,7 @@ class C19(Check):
     chunksize = 4
 
     def bound_text(self, tier):
-        return "6 modules, patterns with <=2 wildcards, 4 expression goals + a multi-line statement goal"
+        return "8 modules, patterns with <=2 wildcards, 4 expression goals + a multi-line statement goal"
 
     def cases(self, tier):
         out = []
@@ -276,9 +278,13 @@ class C19(Check):
             for l in lines:
                 starts.append(starts[-1] + len(l) + 1)
             regions = [("whole", 0, len(src))] + [("stmt%d" % i, starts[s.lineno - 1], starts[s.end_lineno - 1] + s.end_col_offset) for i, s in enumerate(tree.body)]
-            for pat, nwild in abstractions(node):
+            pats = list(abstractions(node))
+            if case["source"] == 0 and kind == "expr":
+                pats.append((ast.Name(id=W[0], ctx=ast.Load()), 1))     # the pattern that is nothing but a wildcard (matching only)
+            for pat, nwild in pats:
                 ptxt = pattern_text(pat)
-                if ptxt.strip() in ("${w0}", "${w1}"):
+                bare = ptxt.strip() in ("${w0}", "${w1}")
+                if bare and not (case["source"] == 0 and kind == "expr" and isinstance(pat, ast.Name)):
                     continue    # a bare wildcard is an expression pattern whatever it was derived from
                 key = [case["module"], ptxt]
                 if "only" in case and case["only"] != ptxt:
@@ -337,6 +343,8 @@ class C19(Check):
                                 fail("binding-differs", ["wildcard:" + wname], {"at": p, "rope": ast.dump(g) if g is not None else None, "reference": ast.dump(wnode)})
                     res["mech"]["get_matches"] = res["mech"].get("get_matches", 0) + 1
                 # ---- restructuring
+                if bare:
+                    continue
                 if kind == "expr":
                     goals = [("same", ptxt)]
                     if nwild == 2 and "${w1}" in ptxt:
